@@ -36,6 +36,7 @@ class SpyControl:
         self.fired = []          # (n, op, path)
         self.closed_handles = 0
         self.opened_handles = 0
+        self.read_cap = None     # callable(requested) -> bytes to really read (short reads before end of file)
         self.on_call = None      # callable(spy, op, path) for checks that tag calls themselves
 
     def session_of(self, spy):
@@ -163,6 +164,9 @@ def make_spy(base, ctl):
         @ue
         async def read(self, file, *args, **kwargs):
             await ctl.before(self, "read", None)
+            if ctl.read_cap is not None and args and isinstance(args[0], int) and args[0] > 0:
+                # a back end is free to return fewer bytes than asked for ("read some data"): ask for fewer
+                args = (max(1, min(args[0], ctl.read_cap(args[0]))),) + tuple(args[1:])
             return await base.read(self, file, *args, **kwargs)
 
         @ue
